@@ -62,21 +62,13 @@ Section Propagate.
     field. lra.
   Qed.
 
-  Lemma delta_terms :
-    ts * GA gen_sgp4_omgcof_v1
-    + GA gen_sgp4_xmcof_v3 * ((1 + GA gen_sgp4_eta_v2 * cos (MDF El T)) ^ 3 - GA gen_sgp4_delmo_v2)
-    = delta_w El T + delta_M El T.
-  Proof.
-    rewrite omgcof_spec, xmcof_spec, eta_spec, delmo_spec by hyp.
-    unfold delta_w, delta_M. sp. unfold aE. fold M0 w0.
-    pose proof (eta_bounds _ _ _ _ _ _ _ He Hperi) as Hb. fold El in Hb.
-    field. lra.
-  Qed.
-
   Lemma omega_spec : GB gen_nn0_omega = w El T.
   Proof.
-    unfold gen_nn0_omega. rewrite ts_spec, mdf_spec, delta_terms.
-    unfold w, wDF. rewrite omgdot_spec by hyp. sp. fold w0. ring.
+    unfold gen_nn0_omega. cbv zeta. rewrite ts_spec, mdf_spec.
+    rewrite omgcof_spec, xmcof_spec, eta_spec, delmo_spec, omgdot_spec by hyp.
+    unfold w, wDF, delta_w, delta_M. sp. unfold aE.
+    pose proof (eta_bounds _ _ _ _ _ _ _ He Hperi) as Hb. fold El in Hb.
+    field. lra.
   Qed.
 
   Lemma xnode_spec : GB gen_nn0_xnode = Om El T.
@@ -145,7 +137,7 @@ Section Propagate.
   Qed.
 
   Lemma elsq_spec : a El T <> 0 -> GB gen_nn0_elsq = eL2 El T ecl.
-  Proof. intros Ha. unfold gen_nn0_elsq, eL2. rewrite axn_spec, ayn_spec by exact Ha. reflexivity. Qed.
+  Proof. intros Ha. unfold gen_nn0_elsq, eL2. rewrite axn_spec, ayn_spec by exact Ha. ring. Qed.
 
   Lemma pl_spec : a El T <> 0 -> GB gen_nn0_pl = pL El T ecl.
   Proof. intros Ha. unfold gen_nn0_pl, pL. rewrite a_spec, elsq_spec by exact Ha. reflexivity. Qed.
@@ -225,15 +217,11 @@ Section Propagate.
   Proof. unfold gen_nn0_fin_u. cbv zeta. rewrite sinu_arg_spec, cosu_arg_spec. reflexivity. Qed.
 
   Lemma fin_sin2u_spec : GC gen_nn0_fin_sin2u = sin2u El T ecl Ew.
-  Proof. unfold gen_nn0_fin_sin2u. cbv zeta. rewrite sinu_arg_spec, cosu_arg_spec. reflexivity. Qed.
+  Proof. unfold gen_nn0_fin_sin2u. cbv zeta. rewrite sinu_arg_spec, cosu_arg_spec. unfold sin2u. ring. Qed.
 
   Lemma fin_cos2u_spec : GC gen_nn0_fin_cos2u = cos2u El T ecl Ew.
   Proof.
-    unfold gen_nn0_fin_cos2u.
-    replace (GB gen_nn0_a * GC gen_nn0_fin_invR *
-             (GC gen_nn0_fin_cosEPW - GB gen_nn0_axn + GB gen_nn0_ayn * GC gen_nn0_fin_esinE * (1 / (1 + GB gen_nn0_betal))))
-      with (cosu El T ecl Ew) by (symmetry; apply cosu_arg_spec).
-    reflexivity.
+    unfold gen_nn0_fin_cos2u. cbv zeta. rewrite !cosu_arg_spec. unfold cos2u. ring.
   Qed.
 
   Ltac fin_norm :=
